@@ -77,7 +77,10 @@ def grid_scenario(rng):
 
 def generate(rng, tier, n=None, **kw):
     cases = B.generate(rng, tier, weights=WEIGHTS, n=n, **GEN_KW)
-    return cases + [("grid%d" % i, grid_scenario(rng)) for i in range(60 if tier == "quick" else 1200)]
+    # the provider-stream scenarios: claims through kuksa.val.v2 OpenProviderStream, among them claims by a token that
+    # covers only part of what it names - refused as a whole, with no effect on the provider registry
+    return cases + [("grid%d" % i, grid_scenario(rng)) for i in range(60 if tier == "quick" else 1200)] + \
+        [("st%d" % i, H.stream_scenario(rng)) for i in range(30 if tier == "quick" else 400)]
 
 
 GEN_KW = {}
